@@ -1,6 +1,9 @@
 """C06 -- IVP builders validate input; user errors end iteration exactly once."""
 from vx.unit import Unit
 from specs_ivpcommon import cfg
+from vx.run import load_spec
+
+C03 = load_spec("C03")      # solve() of the three adaptive builders lives in the C03 solver units (it must establish their invariant)
 
 LIB, IVP = "src/lib.rs", "src/ivp.rs"
 
@@ -364,7 +367,8 @@ def units(ctx):
     return [dimension_unit(), euler_unit(), iterator_unit(), euler_step_unit(),
             adaptive_builder_unit("rk_builder", "src/ivp/rk.rs", "RungeKutta", "R"),
             adaptive_builder_unit("adams_builder", "src/ivp/adams.rs", "Adams", "A"),
-            adaptive_builder_unit("bdf_builder", "src/ivp/bdf.rs", "BDF", "B")]
+            adaptive_builder_unit("bdf_builder", "src/ivp/bdf.rs", "BDF", "B"),
+            C03.rk_step_unit("C06")[0], C03.adams_solver_unit("C06")[0], C03.bdf_solver_unit("C06")[0]]
 
 
 DECIDED = [
@@ -372,12 +376,15 @@ DECIDED = [
     "with_tolerance / with_maximum_dt / with_minimum_dt: non-positive argument -> ToleranceOOB / TimeDeltaOOB, otherwise exactly that field is set; setting min and max in either order leaves min <= max (wf is an invariant of every Ok result)",
     "with_initial_time / with_ending_time: end <= start -> TimeStartOOB / TimeEndOOB, otherwise only the named time changes",
     "Euler::solve: any missing field -> MissingParameters; a complete valid configuration builds a solver with dt > 0 and time < end",
+    "RungeKutta::solve / Adams::solve / BDF::solve (units rk_step, adams_solver, bdf_solver -- the C03 solver units, where the solver structs and their invariants live): "
+    "any missing field -> MissingParameters; a complete configuration that satisfies the builder invariant ALWAYS builds (given that the coefficient trait supplies its tables: Some, of length O); "
+    "the solver starts at the user's time / end / state / tolerance / step bounds with dt = (dt_min + dt_max) / 2, an empty history, finished == false, and the coefficient tables copied entry by entry; "
+    "the returned solver satisfies the invariant that every step() contract of C01 / C03 requires",
     "IVPIterator::next for every stepper: finished -> None and nothing changes; a Failure from step() is yielded once and sets finished; lemma_error_ends_iteration: in every history of next() calls an Err item is followed only by None",
     "EulerSolver::step: an Err(e) from the derivative callback is returned as Failure(UserError(e)) with time and state uncommitted",
     "From<UserError> for IVPStatus<IVPError>",
 ]
 NOT_DECIDED = [
-    "solve() of the RungeKutta / Adams / BDF builders (nalgebra generic constructors; see C03 for the RK solver fields)",
     "user-error surfacing inside the adaptive steppers' step() (RK/Adams/BDF) -- covered where those step functions are under contract (C01/C03), not here",
     "collect_vec (std's collect::<Result<Vec<_>,_>>: first Err wins) and NaN/infinite arguments",
     "termination of next() when a stepper answers Redo forever (exec_allows_no_decreases_clause)",
@@ -386,4 +393,7 @@ ASSUMPTIONS = [
     "prelude/ivp.rs: the Dimension and IVPStepper traits of the crate are restated with their contracts; nalgebra's BVector is the shim V; Box<dyn Error> is an opaque token",
     "thiserror-generated From<IVPError> for IVPStatus<IVPError> (not in the source text) is trusted to wrap into Failure",
     "the derivative callback is a pure function of (t, y)",
+    "solve(): the coefficient traits (RungeKuttaCoefficients, AdamsCoefficients, BDFCoefficients) are restated with pure associated functions; nalgebra's from_iterator(..as_slice().iter().cloned().map(from_real)) "
+    "is an entry-wise copy and from_element_generic(dim, .., 0) a zero vector / matrix of that dimension (rules R33); that the static type of a BVector<N, D> fixes its length to the builder's dimension "
+    "is stated as a hypothesis (init_state.len() == dim.size()) where the invariant needs it",
 ]
